@@ -816,9 +816,16 @@ class Env:
         self.reset()
 
     def reset(self):
+        if not hasattr(self, "CV"):
+            self.default_box = Box(DEFAULT_ID)
+            self.default_box.twin = Box(DEFAULT_ID + 1001)
+            # bare ContextVars proxied by LocalProxy(var[, name]): number 0 has no default, number 1 has one
+            self.CV = [contextvars.ContextVar("c18.cv0"), contextvars.ContextVar("c18.cv1", default=self.default_box)]
+        self.default_box.tag = self.default_box.twin.tag = None
+        self.tokens = {}
         self.iters = []
         self.prox = []
-        self.boxes = {}
+        self.boxes = {DEFAULT_ID: self.default_box, DEFAULT_ID + 1001: self.default_box.twin}
         self.tok = 0
 
     def box(self, n):
@@ -952,7 +959,15 @@ def untok(t: str):
     return c, (k,) + tuple(int(x) for x in rest)
 
 
-def apply(env: Env, op) -> str:
+CV_KINDS = ("cvset", "cvreset")
+DEFAULT_ID = 77                  # the object that is the `default=` of ContextVar number 1
+
+
+def uses_contextvars(steps) -> bool:
+    return any(op[0] in CV_KINDS or (op[0] == "mkp" and op[1] == "v") for _, op in steps)
+
+
+def apply(env: Env, op, c: int = 0) -> str:
     """one operation on the real werkzeug objects, executed inside the issuing context"""
     k = op[0]
     try:
@@ -1010,10 +1025,21 @@ def apply(env: Env, op) -> str:
             if op[2]:
                 gc.collect()
             return "none"
+        if k == "cvset":
+            env.tokens.setdefault((c, op[1]), []).append(env.CV[op[1]].set(env.box(op[2])))
+            return "none"
+        if k == "cvreset":
+            stack = env.tokens.get((c, op[1]))
+            if not stack:
+                return "invalid"
+            env.CV[op[1]].reset(stack.pop())
+            return "none"
         if k == "mkp":
             kw = {"unbound_message": f"m{op[4]}"} if op[4] else {}
             if op[1] == "l":
                 env.prox.append(env.L[op[2]](NAMES[op[3]], **kw))
+            elif op[1] == "v":
+                env.prox.append(env.mod.LocalProxy(env.CV[op[2]], "twin" if op[3] else None, **kw))
             else:
                 env.prox.append(env.S[op[2]]("twin" if op[3] else None, **kw))
             return f"proxy:{len(env.prox) - 1}"
@@ -1037,6 +1063,8 @@ def apply(env: Env, op) -> str:
                     return "repr:unbound"
                 if r in _REPR_ID:
                     return f"repr:{_REPR_ID[r]}"
+                if r.startswith("<LocalProxy object at "):
+                    return "repr:objectdefault"
                 return "repr:" + r[4:-1] if r.startswith("Box(") else "repr?" + r
             try:
                 if a == "cur":
@@ -1114,7 +1142,7 @@ def run_copy(env: Env, steps) -> list[str]:
             ctxs.append(contextvars.Context())
             outs.append(f"ctx:{len(ctxs) - 1}")
         else:
-            r = ctxs[c].run(apply, env, op)
+            r = ctxs[c].run(apply, env, op, c)
             if op[0] in MUTATING:
                 bad = watch.scan(ctxs)
                 if bad:
@@ -1182,7 +1210,7 @@ def run_threads(env: Env, steps) -> list[str]:
                 ws.append(_wcall(ws[c], job))
                 outs.append(f"ctx:{len(ws) - 1}")
             else:
-                outs.append(_wcall(ws[c], lambda op=op: apply(env, op)))
+                outs.append(_wcall(ws[c], lambda op=op, c=c: apply(env, op, c)))
     finally:
         for w in ws:
             try:
@@ -1235,7 +1263,7 @@ async def _adrive(env: Env, steps) -> list[str]:
             tasks.append(t)
             outs.append(f"ctx:{len(qs) - 1}")
         else:
-            outs.append(await call(c, lambda op=op: apply(env, op)))
+            outs.append(await call(c, lambda op=op, c=c: apply(env, op, c)))
     for i in range(len(qs)):
         await call(i, None)
     await asyncio.gather(*tasks)
@@ -1266,9 +1294,23 @@ def oracle(steps) -> list[str]:
     iters = []
     outs = []
 
+    undo = {}                          # (ctx, var) -> previous bindings, for ContextVar.reset(token)
+    MISSING = object()
+
     def bound(m, d):
         if d[0] == "l":
             return dict(m.get(("l", d[1]), ())).get(d[2])
+        if d[0] == "v":
+            # LocalProxy(ContextVar): unbound ONLY where var.get() raises LookupError - never set in this context (or its
+            # ancestors at spawn time) and no default.  A variable bound to None is bound: the proxy resolves to None.
+            val = m.get(("cv", d[1]), MISSING)
+            if val is MISSING:
+                val = DEFAULT_ID if d[1] == 1 else None
+            if val is None:
+                return None
+            if d[2]:
+                return "ERR" if val >= 9000 else val + 1001      # attrgetter("twin") on None: the object's own AttributeError
+            return val
         st = m.get(("s", d[1]), ())
         if not st or st[-1] == NONE_ID:         # the code: a stack proxy whose top IS None reports itself unbound
             return None
@@ -1345,6 +1387,20 @@ def oracle(steps) -> list[str]:
         elif k == "thread":
             ctxs.append({})
             outs.append(f"ctx:{len(ctxs) - 1}")
+        elif k == "cvset":
+            undo.setdefault((c, op[1]), []).append(m.get(("cv", op[1]), MISSING))
+            m[("cv", op[1])] = op[2]
+            outs.append("none")
+        elif k == "cvreset":
+            if not undo.get((c, op[1])):
+                outs.append("invalid")
+                continue
+            prev = undo[(c, op[1])].pop()
+            if prev is MISSING:
+                m.pop(("cv", op[1]), None)
+            else:
+                m[("cv", op[1])] = prev
+            outs.append("none")
         elif k == "mkp":
             prox.append(op[1:])
             outs.append(f"proxy:{len(prox) - 1}")
@@ -1353,7 +1409,11 @@ def oracle(steps) -> list[str]:
                 outs.append("invalid")
                 continue
             b, a = bound(m, prox[op[1]]), op[2]
-            if a[0] == "e":
+            if b == "ERR":
+                # the proxied object lacks the attribute a NAMED proxy follows: its own AttributeError comes through; only
+                # repr() differs (CPython treats an AttributeError from the __repr__ descriptor as "no __repr__": object's repr)
+                outs.append("repr:objectdefault" if a == "repr" else "exn:AttributeError")
+            elif a[0] == "e":
                 names = entry_names()
                 if int(a[1:]) >= len(names):
                     outs.append("invalid")
@@ -1419,6 +1479,28 @@ def enumerate_muts(alphabet, length: int, maxctx: int = 3):
                     yield from rec(prefix, nctx)
                 prefix.pop()
     yield from rec([], 1)
+
+
+CVALPHA = ["cvset0", "cvsetN0", "cvreset0", "cvset1", "cvsetN1", "cvreset1", "spawn", "thread"]
+CV_PREFIX = [(0, ("mkp", "v", 0, 0, 0)), (0, ("mkp", "v", 1, 0, 0)), (0, ("mkp", "v", 1, 1, 4))]
+
+
+def realise_cv(muts):
+    steps = list(CV_PREFIX)
+    nctx = 1
+    for i, (c, k) in enumerate(muts):
+        if k in ("spawn", "thread"):
+            steps.append((c, (k,)))
+            nctx += 1
+        elif k.startswith("cvreset"):
+            steps.append((c, ("cvreset", int(k[-1]))))
+        else:
+            steps.append((c, ("cvset", int(k[-1]), NONE_ID if "N" in k else i + 1)))
+        for c2 in range(nctx):
+            for j in range(3):
+                a = ACC[(i + c2 + 2 * j) % 6] if (i + j) % 3 else f"e{(i * 31 + c2 * 17 + j * 7) % len(entry_names())}"
+                steps.append((c2, ("px", j, a)))
+    return steps
 
 
 SGALPHA = ["setN", "setF", "setS", "seta", "dela", "pushN", "push", "pop", "spawn"]
@@ -1522,6 +1604,14 @@ def canon_model(steps, outs):
     return outs
 
 
+def wildcard(out, exp):
+    """a lookup forwarded to a singleton may not reveal which one: accept it where the reference names a singleton"""
+    for k, o in enumerate(out):
+        if o == "fwd:any" and k < len(exp) and exp[k].startswith("fwd:9") and len(exp[k]) == 8:
+            out[k] = exp[k]
+    return out
+
+
 def first_diff(a, b):
     for i, (x, y) in enumerate(zip(a, b)):
         if x != y:
@@ -1533,7 +1623,8 @@ def shrink(env, runner, steps):
     """greedy removal of steps while the implementation still disagrees with the oracle"""
     def bad(s):
         try:
-            return first_diff(RUNNERS[runner](env, s), oracle(s)) is not None
+            e = oracle(s)
+            return first_diff(wildcard(RUNNERS[runner](env, s), e), e) is not None
         except Exception:  # noqa: BLE001
             return False
     cur = list(steps)
@@ -1763,6 +1854,19 @@ def schedules(rng, quick: bool, exh: dict):
                 yield r, st
     exh["singleton_values"] = dict(alphabet=SGALPHA, max_len=L_sg, contexts=3, schedules=n,
                                    observation="all contexts after every step (iter, getattr, top, proxies); all runners up to length 2")
+    # LocalProxy over a bare ContextVar (number 0 without, number 1 WITH a default): set to an object, set to None (bound:
+    # resolves to None), set then reset(token); siblings / child / parent / fresh thread; oracle-only
+    L_cv = 4 if quick else 5
+    n = 0
+    for ln in range(1, L_cv + 1):
+        for m in enumerate_muts(CVALPHA, ln):
+            st = realise_cv(m)
+            for r in (RUNNERS if ln <= 3 else ("copy",)):
+                n += 1
+                yield r, st
+    exh["contextvar_proxies"] = dict(alphabet=CVALPHA, max_len=L_cv, contexts=3, schedules=n,
+                                     observation="3 proxies (var0, var1 with default, var1.twin) x rotating access in every context "
+                                                 "after every step; all runners up to length 3; implementation vs oracle only")
     L_mw = 5 if quick else 6
     n = 0
     for ln in range(1, L_mw + 1):
@@ -1853,9 +1957,7 @@ def run(chk: Check) -> None:
                 chk.broken("harness", f"runner {runner}", f"{type(e).__name__}: {e}", case={"steps": [tok(s) for s in steps]})
                 out = ["runner-failed"] * len(steps)
             exp = oracle(steps)
-            for k_, o_ in enumerate(out):      # a lookup forwarded to a singleton may not reveal which one
-                if o_ == "fwd:any" and k_ < len(exp) and exp[k_].startswith("fwd:9") and len(exp[k_]) == 8:
-                    out[k_] = exp[k_]
+            wildcard(out, exp)
             impl_outs.append(out)
             orc_outs.append(exp)
             d = first_diff(out, exp)
@@ -1870,6 +1972,8 @@ def run(chk: Check) -> None:
                             f"{exp[d] if d < len(exp) else '?'}")
                     key = "cow:payload-mutated" if d < len(out) and "|payload-mutated" in out[d] else (
                         ("proxy:" if opk == "px" else "leak:") + opk)
+                    if opk == "px" and uses_contextvars(steps):
+                        key = "proxy:contextvar"
                     if any(op[0] in ("mwdrop", "mwopen") for _, op in steps[:d + 1]) and key.startswith("leak:"):
                         key = "middleware-" + key
                     elif key.startswith("leak:") and not any(op[0] in ("spawn", "thread") for _, op in steps[:d + 1]):
@@ -1894,13 +1998,17 @@ def run(chk: Check) -> None:
         if not exe:
             return
         t0 = time.time()
-        body = [mtoks(steps) for _, steps in chunk]
+        # (schedules with bare ContextVar operations are oracle-only: no werkzeug storage code is involved in them)
+        keep = [i for i, (_, steps) in enumerate(chunk) if not uses_contextvars(steps)]
+        body = [mtoks(chunk[i][1]) for i in keep]
         res = chk.run_model(exe, ["g " + b for b in body] + ["s " + b for b in body])
         if res is None:
             return
-        n = len(chunk)
-        for i, (runner, steps) in enumerate(chunk):
-            g, s = canon_model(steps, res[i].split(" ")), canon_model(steps, res[n + i].split(" "))
+        n = len(keep)
+        st["oracle_only"] = st.get("oracle_only", 0) + len(chunk) - n
+        for j, i in enumerate(keep):
+            runner, steps = chunk[i]
+            g, s = canon_model(steps, res[j].split(" ")), canon_model(steps, res[n + j].split(" "))
             if g != impl_outs[i]:
                 st["mism"] += 1
                 if st["mism"] <= 3:
@@ -1931,6 +2039,7 @@ def run(chk: Check) -> None:
         runner, steps, d = st["first_bad"]
         small = shrink(env, runner, steps)
         o, e = RUNNERS[runner](env, small), oracle(small)
+        wildcard(o, e)
         dd = first_diff(o, e)
         chk.failures.insert(0, {"key": chk.failures[0]["key"], "what": "shrunk: " + (
             f"[{runner}] step {dd} ({tok(small[dd])}): implementation {o[dd]}, reference {e[dd]}"
@@ -1954,7 +2063,8 @@ def run(chk: Check) -> None:
         res = chk.run_model(exe, ["cow"])
         if res is not None and res[0] != "true":
             chk.broken("proof", "cow_safe on the regenerated programs (extracted evaluation)", f"cow_safe_all gen_methods = {res[0]}")
-        chk.count("model:compared", st["n"])
+        chk.count("model:compared", st["n"] - st.get("oracle_only", 0))
+        chk.count("oracle-only (bare ContextVar proxies)", st.get("oracle_only", 0))
         chk.count("model:mismatches", st["mism"])
         chk.count("spec:mismatches", st["spec_mism"])
 
